@@ -97,7 +97,12 @@ def main(argv=None):
 
     t0 = time.time()
     acc = Acc()
-    info = mod.run(a.tier, seed, acc, a.procs) or {}
+    try:
+        info = mod.run(a.tier, seed, acc, a.procs) or {}
+    except Exception:
+        import traceback
+        print('MACHINERY-ERROR: the check driver crashed:\n' + traceback.format_exc())
+        return 2
     wall = time.time() - t0
 
     known = load_known()
@@ -195,4 +200,12 @@ def main(argv=None):
 
 
 if __name__ == '__main__':
-    sys.exit(main())
+    try:
+        rc = main()
+    except SystemExit:
+        raise
+    except BaseException:
+        import traceback
+        print('MACHINERY-ERROR: the check driver crashed:\n' + traceback.format_exc())
+        rc = 2
+    sys.exit(rc)
